@@ -16,7 +16,9 @@ RULE = ('cases = (host, x pattern, N, num_knots, spline_degree, diff_order, lam,
         'Boor definition of B on the captured knots (iasls / drpls / aspls extras; Kronecker form in 2-D) with the weights in force at that '
         'step (recorded from the reweighting rule); returned B c against the exact B c; knots against an independent recomputation '
         '(equally spaced, spanning the x-range); converged runs: returned baseline with returned weights; non-trivial = more points than '
-        'bases or a rank-deficient B\'WB repaired by the penalty; distinct by canonical tuple')
+        'bases or a rank-deficient B\'WB repaired by the penalty; distinct by canonical tuple; further stage: the banded (lhs, rhs) that '
+        'solve_pspline hands to PenalizedSystem.solve in pspline_iasls / pspline_drpls / pspline_aspls (every banded_solver) against the '
+        'Lean assembly models asmPIasls / asmPDrpls / asmPAspls, within (N + 16 (degree + 1) + 64) eps of the largest term')
 ASSUMPTIONS = [
     'the banded / sparse solvers (LAPACK, pentapy, SuperLU) are trusted only through the exact normwise backward error of each output: '
     'threshold 1e-11 (measured on the unchanged tree: see notes; a mis-assembled band gives > 1e-6)',
@@ -150,10 +152,12 @@ def asmx_line(kind, sv, w, aux, p1):
             f'{qs(sv["y"])} {qs(w)} {qs(aux) if len(aux) else "-"}')
 
 
-def asmx_compare(r, sv, kind):
+def asmx_compare(r, sv, kind, vec=None, p1=0.0):
     """None if the captured (lhs, rhs) agree with the model's answer `r`, else a description.  Entries are sums of at most four
     terms (B'WB, lam D'D, D1 / lam_1 terms, the row-scaled product), each evaluated in floating point with a few roundings, and may
-    cancel: the tolerance is 64 eps relative to the largest term (measured: 3 eps).  pspline_iasls: SciPy stores B'D1'D1B only up to its last non-zero
+    cancel; a B'WB / B'Wy entry accumulates up to N products of two de Boor values (a few roundings per degree each) and a weight: the
+    tolerance is (N + 16 (degree + 1) + 64) eps relative to the largest term (measured: 3 eps), plus the sensitivity of np.interp to the
+    rounding of the midpoints for drpls / aspls (below).  pspline_iasls: SciPy stores B'D1'D1B only up to its last non-zero
     diagonal, the model keeps every band; zero rows denote nothing, so the captured array is padded with zero rows first."""
     from math import comb
     a, b_ = r.split('|')
@@ -170,7 +174,18 @@ def asmx_compare(r, sv, kind):
     err = float(np.max(np.abs(pred - lhs))) / scale
     rscale = max(float(np.max(np.abs(prhs))), float(np.max(np.abs(sv['y']))) * 1e-300)
     err2 = float(np.max(np.abs(prhs - rhs))) / max(rscale, 1e-300)
-    if err > 64 * EPS or err2 > 64 * EPS:
+    tol = (len(sv['x']) + 16 * (sv['deg'] + 1) + 64) * EPS
+    if kind in ('drpls', 'aspls') and vec is not None and len(vec) > 1:
+        # np.interp is evaluated at the FLOAT midpoints (even degree: 0.5 * (t[i] + t[i+1]), off the exact midpoint by up to an ulp of the
+        # knots), the model at the exact ones; interp changes by at most (largest slope of the interpolated array) * (that offset), and
+        # the result multiplies lam * D'D (times eta for drpls)
+        dx = np.diff(sv['x'])
+        ok = dx > 0
+        if np.any(ok):
+            slope = float(np.max(np.abs(np.diff(np.asarray(vec, dtype=float))[ok]) / dx[ok]))
+            offs = float(np.spacing(np.max(np.abs(sv['knots']))))
+            tol += 2 * slope * offs * (abs(p1) if kind == 'drpls' else 1.0) * abs(sv['lam']) * comb(2 * sv['d'], sv['d']) / scale
+    if err > tol or err2 > tol:
         return f'lhs differs by {err:.3g}, rhs by {err2:.3g} (relative to the largest term)', max(err, err2)
     return None, max(err, err2)
 
@@ -272,7 +287,7 @@ def correspond(ctx):
                 add_bc(sv, m)
                 if kind != 'std' and sv['system'] is not None:
                     lines.append(asmx_line(kind, sv, wk, alpha if kind == 'aspls' else [], p1))
-                    metas.append(('asmx', m, sv, kind))
+                    metas.append(('asmx', m, sv, kind, np.array(alpha if kind == 'aspls' else wk, copy=True), p1))
                     ctx.count('asmx:' + kind)
                 if kind == 'aspls':
                     rr = np.abs(sv['y'] - sv['out'])
@@ -546,7 +561,7 @@ def correspond(ctx):
                          'solver': solver, 'step': k, 'x': x.tolist(), 'y': y.tolist(),
                          'kw': {kk: (v.tolist() if isinstance(v, np.ndarray) else v) for kk, v in kw.items()}}
                     lines.append(asmx_line(kind, sv, w_seq[k], alpha if kind == 'aspls' else [], p1))
-                    metas.append(('asmx', m, sv, kind))
+                    metas.append(('asmx', m, sv, kind, np.array(alpha if kind == 'aspls' else w_seq[k], copy=True), p1))
                     ctx.count('asmx:' + kind)
                     if kind == 'aspls':
                         rr = np.abs(sv['y'] - sv['out'])
@@ -579,13 +594,13 @@ def correspond(ctx):
                 dis.append(Disagreement('c07.model', f'model:asmx:{kind}', f'{meta["host"]}: the driver could not evaluate the assembly model ({r})',
                                         {k: v for k, v in meta.items() if k not in ('x', 'y')}, False))
                 continue
-            why, err = asmx_compare(r, sv, kind)
+            why, err = asmx_compare(r, sv, kind, mt[4], mt[5])
             worst_asm = max(worst_asm, err)
             if why:
                 dis.append(Disagreement('c07.model', f'model:asmx:{kind}', f'{meta["host"]} ({meta["pattern"]} x, N={meta["n"]}, num_knots={meta["num_knots"]}, '
                                         f'degree={meta["deg"]}, diff_order={meta["d"]}, lam={meta["lam"]}, banded_solver={meta.get("solver", "default")}, step '
                                         f'{meta["step"]}): the banded system handed to the solver differs from the Lean assembly model: {why}',
-                                        {k: v for k, v in meta.items() if k not in ('x', 'y')}, False))
+                                        meta, False))
         else:
             out, cmax = mt[2], mt[3]
             if ';' in r:
